@@ -22,8 +22,10 @@ class Intersect:
     nfree = 0
     max_degree = 2
 
-    def __init__(self, A, B, lim=3, direction=(3, 1)):
-        self.A, self.B, self.lim = A, B, lim
+    def __init__(self, A, B, lim=3, direction=(3, 1), premove=False):
+        """premove: the second curve is first built far away, intersected once, and then moved in place to its
+        position (an intersection must not depend on what the curve was asked before)"""
+        self.A, self.B, self.lim, self.premove = A, B, lim, premove
         self.dir = (F(direction[0]), F(direction[1]))
         self.names = ["t"]
 
@@ -36,7 +38,15 @@ class Intersect:
     def run(self, xs):
         tx, ty = self.shift(xs)
         va, vb = pts(self.A), pts(self.B, tx, ty)
-        ja, jb = JordanCurve.from_vertices(va), JordanCurve.from_vertices(vb)
+        if self.premove:
+            ja = JordanCurve.from_vertices(va)
+            jb = JordanCurve.from_vertices(pts(self.B, tx + 50, ty + 70))
+            ja.intersection(jb)
+            jb.intersection(ja)
+            jb.move((-50, -70))
+            ja.move((0, 0))
+        else:
+            ja, jb = JordanCurve.from_vertices(va), JordanCurve.from_vertices(vb)
         out = {"na": len(ja.segments), "nb": len(jb.segments)}
         for eq in (True, False):
             for ep in (True, False):
@@ -189,6 +199,7 @@ PAIRS_THOROUGH = PAIRS_QUICK + [("you", "tri"), ("quad", "quad"), ("penta", "pen
 def specs(tier):
     pairs = PAIRS_QUICK if tier == "quick" else PAIRS_THOROUGH
     out = [dict(module="checks.c14", scenario="Intersect", params=dict(A=a, B=b)) for a, b in pairs]
+    out += [dict(module="checks.c14", scenario="Intersect", params=dict(A=a, B=b, premove=True)) for a, b in pairs[:2 if tier == "quick" else len(pairs)]]
     if tier != "quick":
         out += [dict(module="checks.c14", scenario="Intersect", params=dict(A=a, B=b, direction=(1, 2))) for a, b in pairs]
         out += [dict(module="checks.c14", scenario="Intersect", params=dict(A=a, B=b, direction=(1, 0))) for a, b in pairs]
